@@ -131,6 +131,10 @@ theorem curRoom_set : ∀ (cur : List Int) (i : Nat) (co : Int), cur[i]? = some 
     have := curRoom_set r i co h
     simp only [List.set_cons_succ, curRoom]; omega
 
+/-- the row counter and the variant's builder are different counters: a row costs the larger of the two -/
+theorem min_le_min_max {a b a' b' c : Nat} (h1 : b ≤ b' + c) (h2 : a ≤ a' + 1) : min a b ≤ min a' b' + max c 1 := by
+  omega
+
 /-- `k` rows of one variant take `k` units of the counters' head room -/
 theorem curRoom_setK : ∀ (cur : List Int) (i : Nat) (co : Int) (k : Nat), cur[i]? = some co →
     curRoom cur ≤ curRoom (cur.set i (co + (k : Int))) + k
